@@ -493,9 +493,9 @@ private theorem valid1 : SpecValid (genesis true).cfg.acBound (genesis true) (bl
 passes `Block.Validate` and nine rules of `verifyBlock` before failing the maxHeightPrevoted rule;
 in the second example it passes everything up to the event root, i.e. the whole execution ran) -/
 example : ∃ pre post, checkList (genesis true) { blk 1 0 with mhp := 7 } = pre ++ (Err.mhp, false) :: post ∧
-    (∀ p ∈ pre, p.2 = true) ∧ pre.length = 15 := by
-  refine ⟨(checkList (genesis true) { blk 1 0 with mhp := 7 }).take 15,
-    (checkList (genesis true) { blk 1 0 with mhp := 7 }).drop 16, ?_, ?_, ?_⟩ <;> decide +kernel
+    (∀ p ∈ pre, p.2 = true) ∧ pre.length = 16 := by
+  refine ⟨(checkList (genesis true) { blk 1 0 with mhp := 7 }).take 16,
+    (checkList (genesis true) { blk 1 0 with mhp := 7 }).drop 17, ?_, ?_, ?_⟩ <;> decide +kernel
 example : ∃ pre post, checkList (genesis true) { blk 1 0 with eventRootOK := false } =
     pre ++ (Err.eventRoot, false) :: post ∧ ∀ p ∈ pre, p.2 = true :=
   (C03_first_failure_characterisation _ _ _).mp (by decide +kernel)
